@@ -26,7 +26,8 @@ class Directed(Scenario):
         self.ending = "cancel"
 
     def bpub(self, qos):
-        self.bmsg += 1; tag = f"B{self.bmsg}".encode(); pid = self.next_bpid; self.next_bpid += 1
+        self.bmsg += 1; tag = f"B{self.bmsg}".encode()
+        used = {m["pid"] for m in self.bq}; pid = next(i for i in range(1, 65536) if i not in used)
         self.bq.append(dict(pid=pid, qos=qos, state="pub", tag=tag, conn=self.conn, ps=[]))
         self.bsent.append(dict(pid=pid, qos=qos, tag=tag, acked=False))
         self.broker_out += ref.e_publish(b"a/b", tag, qos, 0, 0, pid, [])
